@@ -56,6 +56,8 @@ func ok10b(o *outer, b []byte) []byte { c := o.in; c.raw = b; return o.in.raw }
 func ok11b(o *outer, b []byte) []byte { c := o.in; c.set(b); return o.in.raw }
 func bad10(o *two, b []byte, k int) []byte { c := o.a; if k > 0 { c = o.b }; c.raw = b; return o.a.raw }
 func bad11(o *two, b []byte) []byte { c := o.a; o.a = o.b; c.set(b); return o.a.raw }
+func (o *two) swap() { o.a = o.b }
+func bad12(o *two, b []byte) []byte { c := o.a; o.swap(); c.raw = b; return o.a.raw }
 func ok10(o *outer) []byte { c := o.in; return c.raw }
 func ok8(m *holder, n int) []byte  { x := make([]byte, n); x[1] = 7; m.raw = x; return m.raw }
 `
@@ -72,7 +74,7 @@ func selfTest() int {
 		fmt.Fprintln(os.Stderr, "go2lean selftest:", err)
 		return 2
 	}
-	funcs := []string{"bad1", "ok1", "bad2", "ok2", "bad3", "ok3", "bad4", "callee", "bad5", "ok5", "win", "bad6", "ok6", "bad7", "bad8", "ok8", "bad9", "ok9", "holder.set", "ok10b", "ok11b", "bad10", "bad11", "ok10"}
+	funcs := []string{"bad1", "ok1", "bad2", "ok2", "bad3", "ok3", "bad4", "callee", "bad5", "ok5", "win", "bad6", "ok6", "bad7", "bad8", "ok8", "bad9", "ok9", "holder.set", "ok10b", "ok11b", "bad10", "bad11", "two.swap", "bad12", "ok10"}
 	var w strings.Builder
 	var untranslated []string
 	translatePackage(dir, group{pkg: "t", stubs: "", funcs: funcs}, &w, &untranslated)
